@@ -94,11 +94,13 @@ TRUST = ["TLC, CommunityModules Json", "rustc / cargo building /repo's working t
 
 def c02(tier):
     c = new_check("C02", tier)
+    c.add_tlc(run_tlc("mc/MC_Unit", name="MC_Unit", coverage=False), "unit tests of the specification's operators against the examples printed in the RFCs (ASSUMEs)")
     for model, cfg in cfgs("mc/MC_Parts", tier, ["", "iri"]):
         mc_replay(c, model, cfg, "every valid reference within the bound, with its RFC decomposition")
     for model, cfg in cfgs("mc/MC_Compose", tier, [""]):
         mc_replay(c, model, cfg, "long structured references composed from component vocabularies (section 3 side conditions)")
-    drive_parse_and_validate(c, tier, "random long multi-byte references: components reported by the real accessors judged by TLC")
+    drive_parse_and_validate(c, tier, "random long multi-byte references, and a length sweep (each component in turn 0..140, ~256, ~512, "
+                                      "~1024, ~4096 characters long): components reported by the real accessors judged by TLC", sweep=True)
     return c.finish(rule="all valid (I)RI-references of bounded length over a delimiter-rich alphabet, enumerated by "
                          "walking the derivative automaton; each distinct text is one case",
                     assumptions=TRUST)
@@ -140,6 +142,7 @@ def c20(tier):
 
 def c09(tier):
     c = new_check("C09", tier)
+    c.add_tlc(run_tlc("mc/MC_Unit", name="MC_Unit", coverage=False), "unit tests of the specification's operators against the examples printed in the RFCs (ASSUMEs)")
     for model, cfg in cfgs("mc/MC_Paths", tier, ["", "pct", "long"]):
         mc_replay(c, model, cfg, "every path within the bound: normalized segments, admissible texts of the normalized "
                                  "copy and of in-place normalisation, stand-alone and inside references")
@@ -161,10 +164,12 @@ def c12(tier):
 
 def c06(tier):
     c = new_check("C06", tier)
+    c.add_tlc(run_tlc("mc/MC_Unit", name="MC_Unit", coverage=False), "unit tests of the specification's operators against the examples printed in the RFCs (ASSUMEs)")
     for model, cfg in cfgs("mc/MC_Resolve", tier, [""]):
         mc_replay(c, model, cfg, "all (base, reference) pairs of the component vocabularies + the 42 examples of RFC 3986 5.4")
     drive_and_validate(c, tier, ops={"resolve"})
     suite_and_validate(c, {"resolve"})
+    big_and_validate(c, {"big_resolve"})
     return c.finish(rule="bases x references composed from scheme/authority/path/query/fragment vocabularies, every 5.2.2 "
                          "branch with dot and empty segments; expected = set of admissible results computed by spec/Resolve.tla",
                     assumptions=TRUST + ["RFC 3986 5.2.2-5.2.4, 5.3 transcription in spec/Resolve.tla (reproduces all 42 "
@@ -247,10 +252,11 @@ def charge_parse(ev, why):
     return ["C01", "C02", "C14"]
 
 
-def drive_parse_and_validate(c, tier, label, kinds=("parse", "parse_bytes")):
+def drive_parse_and_validate(c, tier, label, kinds=("parse", "parse_bytes"), sweep=False):
     n = 6000 if tier == "quick" else 150000
     ev = vlib.run_drive_parse("%s-%s" % (c.pid, tier), n)
-    k, bad, tr = vlib.run_trace(ev, name="%s-parse-%s" % (c.pid, tier), select=lambda e: e.get("ev") in kinds)
+    k, bad, tr = vlib.run_trace(ev, name="%s-parse-%s" % (c.pid, tier),
+                                select=lambda e: (e.get("ev") in kinds and (sweep or e.get("src") != "sweep")) or (sweep and e.get("ev") == "sweep_big"))
     c.add_trace(k, bad, tr, label, charge=charge_parse)
     c.exhaustive = False
 
@@ -306,7 +312,7 @@ def c04(tier):
     drive_and_validate(c, tier)
     sessions_and_validate(c, tier, None)
     suite_and_validate(c, set(EDIT_PROP))
-    big_and_validate(c, {"big_path", "big_pct"})
+    big_and_validate(c, {"big_path", "big_pct", "big_resolve"})
     return c.finish(rule="editor state graph: nodes = texts reachable within the length bound from 5 initial buffers, "
                          "edges = every mutator with every vocabulary argument; plus handle behaviours",
                     assumptions=EDIT_TRUST)
